@@ -155,8 +155,9 @@ func (p *recProvider) Subscribe(ctx context.Context, sub sse.Subscription) error
 func (p *recProvider) Publish(m *sse.Message, topics []string) error { p.pubs++; return nil }
 func (p *recProvider) Shutdown(ctx context.Context) error            { p.shut++; return nil }
 
-func runSessionWorld(rc *RunCtx) *Outcome {
+func runSessionWorld(rc *RunCtx) (out *Outcome) {
 	o := newOutcome()
+	out = o // also when a panic inside go-sse is recovered below
 	ch := rc.Ch
 	var log []string
 	logf := func(format string, a ...any) { log = append(log, fmt.Sprintf(format, a...)) }
